@@ -440,6 +440,30 @@ def _unrolled_writer(ctx, rule, key, b, ty):
                 fit = [g for g in described_guards(x, bb) if g[0] == "cmp" and g[1] == d and g[3] is not None and g[3] < 2 ** bits[to]]
                 ctx.ob(rule, key, "narrowing-cast-bounded:%s->%s" % (fr, to), bool(fit), line=s.get("line"), how="`%s as %s` behind %s <= %s" % (d, to, d, fit[0][3] if fit else "?"),
                        detail="the magnitude `%s` is narrowed from %s to %s with no guard bounding it below 2^%d on that path: larger values lose their high digits" % (d, fr, to, bits[to]))
+    # digits are moved as bytes: a wider store (`dst.cast::<u16>().write_unaligned(pair)`) puts them
+    # down in the byte order of the target
+    wide = []
+    nbytes = 0
+    for x in _writer_bodies(ctx, b):
+        for bb, t in x.calls():
+            n = callee_name(t)
+            leaf = n.rsplit("::", 1)[-1]
+            if (n.startswith("core::ptr::") or n.startswith("core::intrinsics::")) and (leaf.startswith("write") or leaf.startswith("copy") or leaf in ("replace", "swap", "swap_nonoverlapping")):
+                pt = [a for a in t.get("arg_tys", []) if a.startswith("*mut ")]
+                elem = pt[0][5:].strip() if pt else (t.get("generic_args") or ["?"])[0]
+                if elem == "u8":
+                    nbytes += 1
+                elif leaf in ("write", "write_unaligned", "write_volatile") and len(t["args"]) == 2 and re.match(r"^core::num::<impl u\d+>::from_ne_bytes\(", describe(x, x.origin_operand(t["args"][1]))):
+                    nbytes += 1      # bytes gathered and stored in the same (native) order: order-neutral
+                else:
+                    wide.append("%s::<%s> (line %s)" % (n, elem, t.get("line")))
+        for blk in x.blocks:
+            for s_ in blk["stmts"]:
+                if s_["k"] == "assign" and s_["lhs"]["p"] and s_["lhs"]["p"][-1] == "deref" and s_.get("lhs_ty") in ("u16", "u32", "u64", "u128", "usize", "i16", "i32", "i64"):
+                    if (x.local_ty(s_["lhs"]["l"]) or "").startswith("*mut "):
+                        wide.append("store of %s through a raw pointer (line %s)" % (s_.get("lhs_ty"), s_.get("line")))
+    ctx.ob(rule, key, "byte-wise-writes", not wide, how="%d raw writes, all of u8 elements" % nbytes,
+           detail="the digit writer stores through a pointer wider than a byte: %s - on a big-endian target the two digits of a pair come out swapped" % "; ".join(wide[:3]))
     # loop thresholds: the 4-digit loop runs while n >= 10^4, the 2-digit step on n >= 100, last split n < 10
     # as intervals: some edge establishes n >= 10^4, one n >= 100, one splits at 10
     wb = _writer_bodies(ctx, b)
